@@ -51,3 +51,27 @@ def rand_int_matrix(rng, shape, dtype, bits=12):
         big = rng.integers(-lim + 1, lim, size=shape).astype(object) * (1 << 70) + re.astype(object)
         return big
     return re.astype(dtype)
+
+
+def present(rng, a, allow_dtype=True):
+    """The same array values in a different presentation: memory layout (C / Fortran / strided view) and, when the values
+    allow it, a narrower dtype (real float64 or int64 instead of complex128).  Functions of the values must not care."""
+    a = np.asarray(a)
+    if a.dtype == object or a.ndim != 2:
+        return a
+    if allow_dtype and np.iscomplexobj(a) and not np.any(a.imag):
+        k = int(rng.integers(3))
+        if k == 1:
+            a = a.real.copy()
+        elif k == 2 and np.all(a.real == np.round(a.real)) and np.max(np.abs(a.real), initial=0) < 2**52:
+            a = a.real.astype(np.int64)
+    k = int(rng.integers(4))
+    if k == 1:
+        return np.asfortranarray(a)
+    if k == 2:
+        big = np.zeros((a.shape[0] * 2, a.shape[1] * 2), dtype=a.dtype)
+        big[::2, ::2] = a
+        return big[::2, ::2]          # non-contiguous view
+    if k == 3:
+        return np.ascontiguousarray(a.T).T   # F-contiguous via transpose of a C array
+    return a
